@@ -179,6 +179,24 @@ func runC12(c C12Case) (st Stats, err error) {
 				return
 			}
 		}
+		// no-nesting refusal: a no-nesting stack is offered the members of both trees one by one (and both trees
+		// wholesale through Transfer): what it accepts and what it refuses must not depend on the alias wrapping
+		nn1, nn2 := stackage.And().SetNoNesting(true), stackage.And().SetNoNesting(true)
+		for i := 0; i < sub.Len() && i < ref.Len(); i++ {
+			a, _ := sub.Index(i)
+			b, _ := ref.Index(i)
+			nn1.Push(a)
+			nn2.Push(b)
+			if nn1.Len() != nn2.Len() {
+				v = violf("no-nesting-refusal", "a no-nesting stack treated member %d differently: aliased form %s -> Len %d, native form %s -> Len %d\n  tree %s", i, describeValue(a), nn1.Len(), describeValue(b), nn2.Len(), c.Root.Brief())
+				return
+			}
+		}
+		t1, t2 := stackage.Or().SetNoNesting(true), stackage.Or().SetNoNesting(true)
+		if r1, r2 := sub.Transfer(t1), ref.Transfer(t2); r1 != r2 || t1.Len() != t2.Len() {
+			v = violf("no-nesting-refusal/Transfer", "Transfer into a no-nesting destination: aliased tree (%v, len %d), native tree (%v, len %d)\n  tree %s", r1, t1.Len(), r2, t2.Len(), c.Root.Brief())
+			return
+		}
 		// Defrag on both (content may contain nil leaves); results must stay indistinguishable
 		sub.Defrag()
 		ref.Defrag()
@@ -277,7 +295,7 @@ func c12TreeGen(tier Tier) TreeGen {
 		RootKinds: []string{"AND", "OR", "LIST", "NOT"},
 		Leaf:      func(t *rapid.T) Val { return genPrimVal(t, true, false) },
 		Conds:     true, CondExprStack: true, CondExprCond: true, InvalidConds: true,
-		Options: true, Wraps: true, NilLeaves: true, EmptyStacks: true, IndexOpts: true, Caps: true, FIFOOpt: true, Ambient: true, WideRuns: true, NoNestAfter: true, ReadOnlyNodes: true, EqPolicies: true,
+		Options: true, Wraps: true, NilLeaves: true, EmptyStacks: true, IndexOpts: true, Caps: true, FIFOOpt: true, DeepChains: true, Ambient: true, WideRuns: true, NoNestAfter: true, ReadOnlyNodes: true, EqPolicies: true,
 	}
 	if tier.Thorough {
 		g.MaxDepth, g.MaxWidth, g.Budget = 4, 5, 36
